@@ -6,6 +6,7 @@ require (
 	github.com/IrineSistiana/mosdns/v5 v5.0.0
 	github.com/miekg/dns v1.1.62
 	go.uber.org/zap v1.27.0
+	google.golang.org/protobuf v1.35.2
 	pgregory.net/rapid v1.3.0
 )
 
@@ -38,9 +39,9 @@ require (
 	golang.org/x/crypto v0.30.0 // indirect
 	golang.org/x/exp v0.0.0-20241210194714-1829a127f884 // indirect
 	golang.org/x/net v0.32.0 // indirect
+	golang.org/x/sync v0.10.0 // indirect
 	golang.org/x/sys v0.28.0 // indirect
 	golang.org/x/text v0.21.0 // indirect
-	google.golang.org/protobuf v1.35.2 // indirect
 	gopkg.in/ini.v1 v1.67.0 // indirect
 	gopkg.in/yaml.v3 v3.0.1 // indirect
 )
